@@ -259,8 +259,9 @@ class AsyncFIXConnection:
                     "You must send first Logon(35=A)/Logout() message immediately after"
                     f" connection, got {repr(msg)}"
                 )
-            await self._state_set(ConnectionState.LOGON_INITIAL_SENT)
-            self._connection_role = ConnectionRole.INITIATOR
+            if msg.msg_type == FMsg.LOGON:
+                self._connection_role = ConnectionRole.INITIATOR
+                await self._state_set(ConnectionState.LOGON_INITIAL_SENT)
         else:
             if self._connection_role == ConnectionRole.INITIATOR:
                 if (
